@@ -338,7 +338,7 @@ fn signature(interp: &Interpreter, expr: &str, ks: &[&OperandKind]) -> Sig {
 
 /// alternative operand values (alt > 0) are used to separate groupings that coincide on the primary values
 /// number of operand value sets
-const N_ALTS: usize = 8;
+const N_ALTS: usize = 9;
 
 fn alt_lit(k: &OperandKind, pos: usize, alt: usize) -> &'static str {
     // (odd and even values in every position: `-a ** b` groups observably only for even b)
@@ -346,12 +346,12 @@ fn alt_lit(k: &OperandKind, pos: usize, alt: usize) -> &'static str {
     // the two before it make intermediate results wrap (a regrouping that is exact on small
     // operands is not when `a * b` overflows) with a second operand the third divides
     // the last two put MIN_INT (whose negation wraps to itself) in either of the first two positions
-    const INTS: [[&str; 4]; 8] = [["7", "3", "2", "5"], ["12", "4", "3", "2"], ["100", "9", "4", "3"], ["9223372036854775807", "6", "3", "2"], ["4611686018427387904", "4", "2", "3"], ["3", "40", "40", "1"], ["(-9223372036854775807 - 1)", "1", "2", "3"], ["1", "(-9223372036854775807 - 1)", "2", "3"]];
-    const CELLS: [[&str; 4]; 8] = [["mut 7", "mut 3", "mut 2", "mut 5"], ["mut 12", "mut 4", "mut 3", "mut 2"], ["mut 100", "mut 9", "mut 4", "mut 3"], ["mut 9223372036854775807", "mut 6", "mut 3", "mut 2"], ["mut 4611686018427387904", "mut 4", "mut 2", "mut 3"], ["mut 3", "mut 40", "mut 40", "mut 1"], ["mut (-9223372036854775807 - 1)", "mut 1", "mut 2", "mut 3"], ["mut 1", "mut (-9223372036854775807 - 1)", "mut 2", "mut 3"]];
+    const INTS: [[&str; 4]; 9] = [["7", "3", "2", "5"], ["12", "4", "3", "2"], ["100", "9", "4", "3"], ["9223372036854775807", "6", "3", "2"], ["4611686018427387904", "4", "2", "3"], ["3", "40", "40", "1"], ["(-9223372036854775807 - 1)", "1", "2", "3"], ["1", "(-9223372036854775807 - 1)", "2", "3"], ["7", "2", "4", "8"]];
+    const CELLS: [[&str; 4]; 9] = [["mut 7", "mut 3", "mut 2", "mut 5"], ["mut 12", "mut 4", "mut 3", "mut 2"], ["mut 100", "mut 9", "mut 4", "mut 3"], ["mut 9223372036854775807", "mut 6", "mut 3", "mut 2"], ["mut 4611686018427387904", "mut 4", "mut 2", "mut 3"], ["mut 3", "mut 40", "mut 40", "mut 1"], ["mut (-9223372036854775807 - 1)", "mut 1", "mut 2", "mut 3"], ["mut 1", "mut (-9223372036854775807 - 1)", "mut 2", "mut 3"], ["mut 7", "mut 2", "mut 4", "mut 8"]];
     const BOOLS: [[&str; 4]; 3] = [["true", "false", "true", "false"], ["false", "true", "true", "false"], ["false", "false", "true", "true"]];
     match k.name {
-        "int" => INTS[alt % 8][pos],
-        "mut int" => CELLS[alt % 8][pos],
+        "int" => INTS[alt % 9][pos],
+        "mut int" => CELLS[alt % 9][pos],
         "bool" => BOOLS[alt % 3][pos],
         "float" => [["0.1", "0.2", "0.3", "1e308"], ["1e308", "1e308", "1e308", "0.5"], ["3.0", "2.0", "0.5", "7.0"]][alt % 3][pos],
         _ => k.lits[pos],
